@@ -282,11 +282,15 @@ def op_line(o):
 
 
 class Case:
-    def __init__(self, rules, ops):
+    def __init__(self, rules, ops, sqlite=False):
         self.rules, self.ops = rules, ops
+        self.sqlite = sqlite          # run on the real SQLite database instead of the observing in-memory one
 
     def harness_lines(self):
         """program + ops; an `O key` oracle op is inserted after every build"""
+        if self.sqlite:
+            plain = Case(self.rules, self.ops).harness_lines()
+            return ["Q 1"] + plain + ["Q 0"]
         out = ["W", "P %d" % len(self.rules)] + [self.rules[k].line() for k in sorted(self.rules)]
         for o in self.ops:
             out += op_line(o).split("\n")
@@ -317,6 +321,8 @@ def run_harness(exe, cases, timeout=600, max_problems=4):
         i = start
         while i < len(cases):
             n = 2 + sum(2 if o["op"] == "B" else 1 for o in cases[i].ops)   # W, P, ops (+O per build)
+            if getattr(cases[i], "sqlite", False):
+                n += 2                                                       # Q 1 ... Q 0
             if pos + n <= len(out) and not any(l.startswith("STALL") for l in out[pos:pos + n]):
                 res[i] = out[pos:pos + n]
                 pos += n
